@@ -86,3 +86,8 @@ pub broadcast axiom fn axiom_starts_with_char(s: Seq<char>, c: char) ensures #[t
 pub fn str_len(s: &str) -> (r: usize) ensures r == spec_utf8_len(s@) { s.len() }
 
 //@ canary canon broadcast use {axiom_vec_canon, axiom_vec_of_view, axiom_str_canon, axiom_str_of_view, lemma_str_ext_b, lemma_vec_ext_b}; let v = vec_of(seq![1u8, 2u8]); let s = str_of("ab"@); axiom_vec_canon(v); axiom_str_canon(s); assert(vec_of(seq![1u8, 2u8])@ == seq![1u8, 2u8]); assert(vec_of(seq![3u8])@ != vec_of(seq![1u8, 2u8])@);
+
+// Option::map_or (std docs)   ASSUMED
+pub assume_specification<T, U, F: FnOnce(T) -> U> [Option::<T>::map_or] (o: Option<T>, default: U, f: F) -> (r: U)
+    requires o matches Some(x) ==> f.requires((x,))
+    ensures match o { Some(x) => f.ensures((x,), r), None => r == default };
